@@ -68,7 +68,7 @@ func (x *X) enc(v ssa.Value, at ssa.Instruction) []Atom {
 			if b.Name() == "append" {
 				out := append([]Atom(nil), x.enc(cc.Args[0], t)...)
 				if len(cc.Args) > 1 {
-					out = append(out, x.enc(cc.Args[1], t)...)
+					out = append(out, x.backfilled(t, x.enc(cc.Args[1], t))...)
 				}
 				return out
 			}
@@ -77,6 +77,9 @@ func (x *X) enc(v ssa.Value, at ssa.Instruction) []Atom {
 		if kind, w, order := binCall(t); kind == "append" {
 			out := append([]Atom(nil), x.enc(cc.Args[1], t)...)
 			return append(out, x.valueAtom(cc.Args[2], w, order, t))
+		}
+		if binAppendCall(t) {
+			return x.encBinAppend(t)
 		}
 		if recv, name, ok := builderMethod(t); ok && (name == "String" || name == "Bytes") {
 			if al, isA := recv.(*ssa.Alloc); isA {
@@ -119,6 +122,9 @@ func (x *X) enc(v ssa.Value, at ssa.Instruction) []Atom {
 			}
 		}
 		if call, ok := t.Tuple.(*ssa.Call); ok && t.Index == 0 {
+			if binAppendCall(call) {
+				return x.encBinAppend(call)
+			}
 			if tail, bufArg, ok := x.inlineAppender(call); ok {
 				if bufArg == nil {
 					return tail
@@ -714,9 +720,9 @@ func (x *X) encPhi(p *ssa.Phi) []Atom {
 }
 
 // minusPrefix returns what v appends after φ p, or nil if v does not extend p.
-func (x *X) minusPrefix(v ssa.Value, p *ssa.Phi) []Atom {
+func (x *X) minusPrefix(v ssa.Value, p ssa.Value) []Atom {
 	v = x.res(v)
-	if v == ssa.Value(p) {
+	if v == p {
 		return []Atom{}
 	}
 	switch t := v.(type) {
@@ -727,7 +733,7 @@ func (x *X) minusPrefix(v ssa.Value, p *ssa.Phi) []Atom {
 				return nil
 			}
 			if len(t.Call.Args) > 1 {
-				return append(pre, x.enc(t.Call.Args[1], t)...)
+				return append(pre, x.backfilled(t, x.enc(t.Call.Args[1], t))...)
 			}
 			return pre
 		}
@@ -750,6 +756,17 @@ func (x *X) minusPrefix(v ssa.Value, p *ssa.Phi) []Atom {
 		}
 	case *ssa.Extract:
 		if call, ok := t.Tuple.(*ssa.Call); ok && t.Index == 0 {
+			if binAppendCall(call) {
+				pre := x.minusPrefix(call.Call.Args[0], p)
+				if pre == nil {
+					return nil
+				}
+				tail, why := x.binDataAtoms(call.Call.Args[2], call.Call.Args[1], call)
+				if why != "" {
+					return append(pre, unknown(call.Pos(), "%s", why)...)
+				}
+				return append(pre, tail...)
+			}
 			if tail, bufArg, ok := x.inlineAppender(call); ok && bufArg != nil {
 				pre := x.minusPrefix(bufArg, p)
 				if pre == nil {
@@ -1520,6 +1537,28 @@ func (x *X) inlineAppender(call *ssa.Call) ([]Atom, ssa.Value, bool) {
 				bufIdx = i
 			}
 		}
+	}
+	if bufIdx >= 0 && x.root().Units != nil && x.isUnit(f) {
+		// an append-style codec unit (func (n *T) appendX(dst []byte) ([]byte, error)):
+		// compared as a whole with its counterpart, like a unit that returns a
+		// fresh sequence — one nested atom after the caller's buffer
+		a := Atom{Kind: "nested", Callee: f, Val: call, At: call, Pos: call.Pos()}
+		for i, arg := range cc.Args {
+			if i == bufIdx {
+				continue
+			}
+			subject := x.res(arg)
+			if p, ok := x.Path(subject); ok {
+				a.Field = p
+			} else if p, ok := x.basePath(subject); ok {
+				a.Field = p
+			} else {
+				fd, e, _, _ := x.desc(subject)
+				a.Field, a.Expr = fd, e
+			}
+			break
+		}
+		return []Atom{a}, cc.Args[bufIdx], true
 	}
 	if bufIdx < 0 {
 		// producer: a fresh byte sequence made from the arguments. Only for rules
